@@ -196,6 +196,8 @@ def replay_gen(payload):
                    ("heur", HEUR[ci % len(HEUR)], ci % 2 == 1)]
         if payload.get("force"):
             configs = [tuple(payload["force"])]
+        if not virt and ci % 4 == 0 and not payload.get("force"):
+            ncalls += _extra_api(model, conc, inst, case, ev, Q, fails, payload, hs)
         for kind, order, joint in configs:
             eng = shared      # one engine per instance for ALL queries (a stale cache / re-bound model must not change answers)
             qv = [conc.vn[v] for v in rng.sample(Q, len(Q))]
@@ -229,6 +231,43 @@ def replay_gen(payload):
                         fail(d["clause"], d["got"], {"var": v})
                         break
     return {"n": len(payload["cases"]), "calls": ncalls, "fails": fails[:40]}
+
+
+def _extra_api(model, conc, inst, case, ev, Q, fails, payload, hs):
+    """BayesianNetwork.get_state_probability (joint probability of a partial assignment) and predict_probability
+    (per-variable posteriors for a data row) against the same TLC numbers"""
+    import pandas as pd
+    from ..bnutil import close, marginal_of
+    n = 0
+
+    def fail(api, clause, obs, exp):
+        fails.append({"api": api, "clause": clause, "features": {"state_kind": "any"},
+                      "case": {"kind": "gen", "inst": inst, "expected": case, "seed": payload["seed"], "hashseed": hs, "config": None},
+                      "observed": obs, "expected": exp})
+    row = case["post"][0]
+    states = {conc.vn[v]: conc.sn[v][s] for v, s in {**row["a"], **ev}.items()}
+    n += 1
+    try:
+        p = float(model.get_state_probability(states))
+        if not close(p, row["w"], case["jden"]):
+            fail("BayesianNetwork.get_state_probability", "value", p, [row["w"], case["jden"]])
+    except Exception as ex:  # noqa
+        fail("BayesianNetwork.get_state_probability", "raises", repr(ex)[:200], None)
+    if ev and all(isinstance(x, str) for x in conc.vn.values()):
+        n += 1
+        try:
+            df = pd.DataFrame([{conc.vn[v]: conc.sn[v][s] for v, s in ev.items()}])
+            out = model.predict_probability(df)
+            for v in Q:
+                for r in marginal_of(case["post"], v):
+                    col = conc.vn[v] + "_" + str(conc.sn[v][r["a"][v]])
+                    if col not in out.columns or not close(float(out[col].iloc[0]), r["w"], case["tot"]):
+                        fail("BayesianNetwork.predict_probability", "value", {"column": col, "got": float(out[col].iloc[0]) if col in out.columns else None},
+                             [r["w"], case["tot"]])
+                        return n
+        except Exception as ex:  # noqa
+            fail("BayesianNetwork.predict_probability", "raises", repr(ex)[:200], None)
+    return n
 
 
 def record(payload):
